@@ -342,11 +342,14 @@ class SymExec:
 
     SOLVERS = {"DirectSolve", "NewtonSolve"}
     SNAP = {"qsqr": ["q0", "q1", "q2", "q3", "k00", "k01", "k02", "k03", "k11", "k12", "k13", "k22", "k23", "k33",
-                     "lambda"],
+                     "lambda", "qsqr"],
             "detK": ["k00", "k01", "k02", "k03", "k11", "k12", "k13", "k22", "k23", "k33"]}
 
-    def __init__(self, mode, float_params, array_params, int_params, special_true):
+    def __init__(self, mode, float_params, array_params, int_params, special_true, final_events=None):
         self.mode = mode
+        self.final_events = final_events      # None: counting pass; else {event var: index of its last assignment}
+        self.event_seen = {}
+        self.snap_names = []
         self.defs = []          # (name, coq_expr or None for input field, comment)
         self.inputs = []        # record fields
         self.cur = {}           # C variable (or arr_k) -> current definition name
@@ -475,9 +478,19 @@ class SymExec:
             self.poly[name] = poly
         self.cur[cvar] = name
         if cvar in self.SNAP:
-            for v in self.SNAP[cvar]:
-                if v in self.cur:
-                    self.snap["at_%s_%s" % (cvar, v)] = self.cur[v]
+            # The values current at the LAST assignment of the event variable become named definitions
+            # at_<event>_<var>; later statements refer to them through these names, which are kept out of
+            # the default unfolding database (proofs can stop at this barrier).
+            self.event_seen[cvar] = self.event_seen.get(cvar, 0) + 1
+            if self.final_events is not None and self.event_seen[cvar] == self.final_events.get(cvar):
+                for v in self.SNAP[cvar]:
+                    if v in self.cur:
+                        alias = "at_%s_%s" % (cvar, v)
+                        self.defs.append((alias, "%s i" % self.cur[v], "value of %s when %s was last assigned" % (v, cvar)))
+                        self.poly[alias] = self.poly[self.cur[v]]
+                        self.snap[alias] = self.cur[v]
+                        self.snap_names.append(alias)
+                        self.cur[v] = alias
         return name
 
     # ---- statements
@@ -621,10 +634,6 @@ def emit_module(modname, se, scope, ty):
             continue
         L.append("Definition out_%s (i : inp) : %s := %s i." % (cvar, ty, d))
         finals.append("out_%s" % cvar)
-    L.append("(* versions current when the named variable was (last) assigned *)")
-    for k, d in sorted(se.snap.items()):
-        L.append("Definition %s (i : inp) : %s := %s i." % (k, ty, d))
-        finals.append(k)
     if se.fallback_cond is not None and se.mode == "R":
         cname, then_is_fallback = se.fallback_cond
         if then_is_fallback:
@@ -647,8 +656,9 @@ def emit_module(modname, se, scope, ty):
             role[f] = {"G_x": "gx", "G_y": "gy", "numAtoms": "n"}.get(f, f.lower())
     args = "gx gy n m0 m1 m2 m3 m4 m5 m6 m7 m8 lam" + (" qa qb qc qd" if se.mode == "Z" else "")
     L.append("Definition mkin (%s : %s) : inp := mk %s." % (args, ty, " ".join(role[f] for f in se.inputs)))
-    names = [d[0] for d in se.defs] + finals
+    names = [d[0] for d in se.defs if d[0] not in se.snap_names] + finals
     L.append("Global Hint Unfold %s : rmsdgen." % " ".join(names))
+    L.append("Global Hint Unfold %s : rmsdgen_snap." % " ".join(se.snap_names))
     if se.conds:
         L.append("Global Hint Unfold %s : rmsdgen_cond." % " ".join(c[0] + ("" if se.mode == "R" else "_b") for c in se.conds))
     L.append("End %s." % modname)
@@ -684,11 +694,14 @@ def translate_source(text):
     mods = []
     info = {}
     for mode, modname, scope, ty in (("Z", "Zf", "Z_scope", "Z"), ("R", "Rf", "R_scope", "R")):
-        se = SymExec(mode, floats, arrays, [p for p in ints if p != "computeRot"], ["computeRot"] + outs)
-        # the matrix parameter is an input even if some entry is never read
-        for k in range(arrays["M"]):
-            se._input("M%d" % k, "M%d" % k)
-        se.run(ast)
+        counts = None
+        for _pass in (0, 1):
+            se = SymExec(mode, floats, arrays, [p for p in ints if p != "computeRot"], ["computeRot"] + outs, final_events=counts)
+            # the matrix parameter is an input even if some entry is never read
+            for k in range(arrays["M"]):
+                se._input("M%d" % k, "M%d" % k)
+            se.run(ast)
+            counts = dict(se.event_seen)
         if se.ret is None:
             raise TranslateError("no return statement reached")
         for need in ["out_C_0", "out_C_1", "out_C_2", "out_lambda"] + ["out_rot%d" % k for k in range(9)]:
@@ -711,3 +724,710 @@ def translate(ctx):
     out, _info = translate_source(text)
     changed = ctx.write_gen("Gen/RmsdFormulas.v", out)
     ctx.notes.setdefault("coverage_extra", {})["translator"] = "ok (%s)" % ("regenerated" if changed else "unchanged")
+
+
+# =====================================================================================
+#  Part 2: correspondence / oracle
+# =====================================================================================
+RULE = ("conformations are generated from seeded recipes (kinds: random, near_identical, near_planar, mirror, offset "
+        "(up to 500 nm), grid (integer coordinates, exact tie), tiny (water-sized), half_turn_axis/generic, "
+        "near_half_turn) with atom counts covering all residues mod 4 up to 4099; ops = md.rmsd (parallel x "
+        "precentered x atom_indices none/equal/different, any order, any reference frame), Trajectory.superpose, "
+        "md.rmsf, md.lprmsd; a case-op-frame is non-trivial when the two conformations differ; distinct by hash of "
+        "(generator recipe, op)")
+TRUSTED = ["harness/impl/rmsd_impl.py (builds Trajectory objects, calls the public API, returns raw arrays)",
+           "harness/props/C06.py: C-subset translator (decides which source text becomes which Gallina term), case "
+           "generators, float64 Kabsch oracle (numpy.linalg.svd), exact rational characteristic polynomial "
+           "(fractions, Faddeev-LeVerrier), numpy.linalg.eigvalsh to locate the largest root",
+           "hand model of what surrounds msdFromMandG (accumulation of M and G in theobald_rmsd_sse.h, center.cpp, "
+           "rotation.cpp, Trajectory.superpose): coq/Rmsd/Model.v, tied by the correspondence only"]
+ASSUMPTIONS = ["exact arithmetic in all theorems; float32/float64 rounding of the kernels and of DirectSolve is bounded "
+               "empirically: |rmsd^2 - exact| <= C_MSD(n)*2^-23*(Ga+Gb)/n, superposed deviation and distances within "
+               "C*2^-23*(radius+offset) (constants in the evidence)",
+               "the root solver is not modelled: theorems take 'lam is a root of the code's polynomial and dominates "
+               "the Rayleigh quotient of K' as hypotheses; the run checks on integer inputs that the implementation's "
+               "value is the largest root of the model's polynomial",
+               "relative rotations of the generic buckets are limited to 2.6 rad; rotations near a half turn are "
+               "exercised in their own buckets (first adjugate column ill-conditioned in the as-found code)"]
+
+EPS = 2.0 ** -23
+MAX_GENERIC_ANGLE = 2.6
+
+
+# Stated float32 bounds (measured on 10^4 cases: the largest observed error is below 1/5 of each bound).
+# The root lam of a quartic whose coefficients carry float32 rounding moves by  delta P / P'(lam), and
+# P'(lam) = prod_j (lam - lam_j): every bound therefore carries the conditioning factor (1 + 1/kappa),
+# kappa = prod_{j>=2} (lam_1 - lam_j) / S^3,  S = (Ga+Gb)/2  (float64 eigenvalues of K; 1 for well separated roots).
+C_MSD = 16.0      # |rmsd^2 - exact|          <= C_MSD * 2^-23 * (Ga+Gb)/n * (1 + 1/kappa)
+C_SUP = 24.0      # |deviation - minimal rmsd| <= C_SUP * 2^-23 * (radius + offset) * (1 + 1/kappa)
+C_RIG = 24.0      # interatomic distances      <= C_RIG * 2^-23 * (radius + offset)
+C_RMSF = 48.0     # rmsf                       <= C_RMSF * 2^-23 * (radius + offset) * (1 + 1/kappa)
+KAPPA_MIN = 1e-6  # below: top eigenvalue numerically degenerate (several optimal rotations): value checks excluded
+
+
+def rotmat(axis, ang):
+    axis = np.asarray(axis, dtype=np.float64)
+    axis = axis / np.linalg.norm(axis)
+    K = np.array([[0, -axis[2], axis[1]], [axis[2], 0, -axis[0]], [-axis[1], axis[0], 0]])
+    return np.eye(3) + math.sin(ang) * K + (1 - math.cos(ang)) * (K @ K)
+
+
+WATER = np.array([[0.0, 0.0, 0.0], [0.0957, 0.0, 0.0], [-0.024, 0.0927, 0.0]])
+METHANE = np.array([[0, 0, 0], [0.063, 0.063, 0.063], [-0.063, -0.063, 0.063], [-0.063, 0.063, -0.063],
+                    [0.063, -0.063, -0.063]], dtype=float)
+
+
+def grid_structure(rs, n, lim):
+    """integer coordinates with zero sum per axis (centring is then exact and a no-op)."""
+    while True:
+        c = rs.randint(-lim, lim + 1, size=(n, 3))
+        c[-1] = -c[:-1].sum(0)
+        if np.abs(c[-1]).max() <= 4 * lim and np.linalg.matrix_rank(c - c.mean(0)) >= 2:
+            return c
+
+
+def gen_arrays(gen):
+    """Deterministic (target, ref) float32 arrays from a recipe; also returns integer data for grid kinds."""
+    rs = np.random.RandomState(gen["seed"])
+    kind, n, F, G = gen["kind"], gen["n"], gen["F"], gen["G"]
+    m = gen.get("m", n)
+    scale = gen.get("scale", 1.0)
+    unit = gen.get("unit", 8)
+    if kind in ("grid", "half_turn_axis"):
+        refs_i = [grid_structure(rs, m, gen.get("lim", 6)) for _ in range(G)]
+        tg_i = []
+        for f in range(F):
+            if kind == "grid":
+                tg_i.append(grid_structure(rs, n, gen.get("lim", 6)))
+            else:
+                D = [np.diag([1, -1, -1]), np.diag([-1, 1, -1]), np.diag([-1, -1, 1])][rs.randint(3)]
+                tg_i.append(refs_i[f % G][:n] @ D)
+        ref = np.array(refs_i, dtype=np.float64) / unit
+        target = np.array(tg_i, dtype=np.float64) / unit
+        return target.astype(np.float32), ref.astype(np.float32)
+    refs = []
+    for g in range(G):
+        if kind == "tiny":
+            base = (WATER if n == 3 else METHANE[:n]) * scale
+            if m > n:
+                base = np.vstack([base, rs.randn(m - n, 3) * 0.05 * scale])
+        else:
+            base = rs.randn(m, 3) * scale
+            if kind == "near_planar":
+                base[:, 2] *= 10.0 ** -rs.uniform(3, 6)
+        refs.append(base)
+    off_t = np.zeros(3)
+    off_r = np.zeros(3)
+    if kind == "offset":
+        off_t = rs.uniform(-1, 1, 3) * gen["offset"]
+        off_r = rs.uniform(-1, 1, 3) * gen["offset"]
+    elif kind != "grid":
+        off_t = rs.uniform(-1, 1, 3) * gen.get("offset", 2.0)
+        off_r = rs.uniform(-1, 1, 3) * gen.get("offset", 2.0)
+    tg = []
+    for f in range(F):
+        B = refs[f % G][:n]
+        if kind == "random":
+            X = rs.randn(n, 3) * scale
+        else:
+            noise = {"near_identical": 10.0 ** -rs.uniform(2, 5), "near_planar": 0.02, "mirror": rs.choice([0.0, 0.01]),
+                     "offset": 0.05, "tiny": 0.0, "half_turn_generic": 0.0, "near_half_turn": 0.0}[kind] * scale
+            X = B.copy()
+            if kind == "mirror":
+                X[:, 0] = -X[:, 0]
+            X = X + noise * rs.randn(n, 3)
+            if kind == "near_planar":
+                X[:, 2] = B[:, 2] + 1e-5 * rs.randn(n)
+            if kind == "half_turn_generic":
+                ang = math.pi
+            elif kind == "near_half_turn":
+                ang = math.pi - 10.0 ** -rs.uniform(1, 3)
+            elif kind == "tiny":
+                ang = rs.uniform(0.8, 2.5)
+            else:
+                ang = rs.uniform(0, MAX_GENERIC_ANGLE)
+            c = X.mean(0)
+            X = (X - c) @ rotmat(rs.randn(3), ang) + c
+        tg.append(X + off_t)
+    ref = np.array(refs) + off_r
+    return np.array(tg).astype(np.float32), ref.astype(np.float32)
+
+
+def kabsch(a, b):
+    """Independent float64 oracle: minimal mean square deviation over proper rotations and translations.
+    Returns (msd, R, ca, cb) with the optimal map  x -> (x - ca) @ R + cb."""
+    a = np.asarray(a, dtype=np.float64)
+    b = np.asarray(b, dtype=np.float64)
+    ca, cb = a.mean(0), b.mean(0)
+    A, B = a - ca, b - cb
+    U, S, Vt = np.linalg.svd(A.T @ B)
+    d = np.sign(np.linalg.det(U @ Vt))
+    if d == 0:
+        d = 1.0
+    R = U @ np.diag([1.0, 1.0, d]) @ Vt
+    msd = max(0.0, float(((A @ R - B) ** 2).sum()) / len(a))
+    return msd, R, ca, cb
+
+
+def size_terms(a, b):
+    """((Ga+Gb)/n, largest radius, kappa) of a pair of conformations (float64)."""
+    a = np.asarray(a, dtype=np.float64)
+    b = np.asarray(b, dtype=np.float64)
+    A, B = a - a.mean(0), b - b.mean(0)
+    g = float((A * A).sum() + (B * B).sum())
+    S = A.T @ B
+    (Sxx, Sxy, Sxz), (Syx, Syy, Syz), (Szx, Szy, Szz) = S
+    K = np.array([[Sxx + Syy + Szz, Syz - Szy, Szx - Sxz, Sxy - Syx], [Syz - Szy, Sxx - Syy - Szz, Sxy + Syx, Szx + Sxz],
+                  [Szx - Sxz, Sxy + Syx, -Sxx + Syy - Szz, Syz + Szy], [Sxy - Syx, Szx + Sxz, Syz + Szy, -Sxx - Syy + Szz]])
+    w = np.linalg.eigvalsh(K)
+    kappa = float(np.prod((w[-1] - w[:-1]) / (g / 2))) if g > 0 else 0.0
+    return g / len(a), float(max(np.sqrt((A * A).sum(1)).max(), np.sqrt((B * B).sum(1)).max())), kappa
+
+
+def op_indices(op, n, m):
+    ai = op.get("atom_indices")
+    ri = op.get("ref_atom_indices")
+    A = list(range(n)) if ai is None else list(ai)
+    if ri is None:
+        Bi = list(A)
+    else:
+        Bi = list(ri)
+    return A, Bi
+
+
+# ------------------------------------------------------------------------------------------------
+#  case construction
+SMALL_SIZES = [3, 4, 5, 6, 7, 8, 9, 10, 11, 13, 22, 37]
+BIG_SIZES = [100, 101, 102, 103, 510, 1023, 2049, 4096, 4097, 4098, 4099]
+GENERIC_KINDS = ["random", "near_identical", "near_planar", "mirror", "offset"]
+
+
+def sub_indices(rng, total, k):
+    idx = rng.sample(range(total), k)
+    return idx
+
+
+def gen_ops(rng, gen, quick, full=True):
+    n, m, F, G = gen["n"], gen.get("m", gen["n"]), gen["F"], gen["G"]
+    ops = []
+    fr = lambda: rng.randrange(G)
+    if n == m:
+        ops.append({"op": "rmsd", "frame": fr(), "parallel": True})
+        ops.append({"op": "rmsd", "frame": fr(), "parallel": False})
+        ops.append({"op": "rmsd", "frame": fr(), "parallel": rng.random() < 0.5, "precentered": True})
+    k = rng.randint(3, min(n, m))
+    A = sub_indices(rng, n, k)
+    ops.append({"op": "rmsd", "frame": fr(), "parallel": rng.random() < 0.5, "atom_indices": A})
+    B = sub_indices(rng, m, k)
+    ops.append({"op": "rmsd", "frame": fr(), "parallel": rng.random() < 0.5, "atom_indices": A, "ref_atom_indices": B})
+    if not full:
+        ops.append({"op": "superpose", "frame": fr(), "parallel": True})
+        return ops
+    if n == m:
+        ops.append({"op": "superpose", "frame": fr(), "parallel": rng.random() < 0.5})
+    A2 = sub_indices(rng, n, k)
+    ops.append({"op": "superpose", "frame": fr(), "parallel": rng.random() < 0.5, "atom_indices": A2})
+    ops.append({"op": "superpose", "frame": fr(), "parallel": rng.random() < 0.5, "atom_indices": A2,
+                "ref_atom_indices": sub_indices(rng, m, k)})
+    if n == m:
+        ops.append({"op": "rmsf", "frame": fr(), "parallel": rng.random() < 0.5, "ref": "other"})
+        ops.append({"op": "rmsf", "frame": rng.randrange(F), "parallel": rng.random() < 0.5, "ref": "self"})
+        if n >= 4:
+            two = sorted(rng.sample(range(n), 2))
+            ops.append({"op": "lprmsd", "frame": fr(), "parallel": True, "permute_groups": [[two[0]], [two[1]]]})
+    return ops
+
+
+def build_cases(ctx):
+    rng = ctx.rng
+    quick = ctx.tier == "quick"
+    cases = []
+
+    def add(gen, ops=None, full=True):
+        gen = dict(gen)
+        gen["seed"] = rng.randrange(1, 2 ** 31 - 1)
+        cases.append({"gen": gen, "ops": ops if ops is not None else gen_ops(rng, gen, quick, full)})
+
+    reps = 1 if quick else 6
+    for _ in range(reps):
+        for kind in GENERIC_KINDS:
+            for n in SMALL_SIZES:
+                gen = {"kind": kind, "n": n, "m": n + rng.choice([0, 0, 2]), "F": rng.randint(1, 4), "G": rng.randint(1, 3),
+                       "scale": rng.choice([0.3, 1.0, 3.0])}
+                if kind == "offset":
+                    gen["offset"] = rng.choice([5.0, 50.0, 500.0])
+                add(gen)
+    for _ in range(reps):
+        for n in BIG_SIZES:
+            kind = rng.choice(GENERIC_KINDS)
+            gen = {"kind": kind, "n": n, "m": n, "F": 2, "G": 1, "scale": rng.choice([1.0, 2.0])}
+            if kind == "offset":
+                gen["offset"] = rng.choice([50.0, 500.0])
+            add(gen, full=(n <= 1100))
+    # exact tie: integer coordinates
+    for _ in range(16 if quick else 160):
+        n = rng.randint(3, 12)
+        add({"kind": "grid", "n": n, "m": n, "F": rng.randint(1, 3), "G": 1, "lim": rng.choice([3, 6, 12]), "unit": 8},
+            ops=[{"op": "rmsd", "frame": 0, "parallel": True}, {"op": "rmsd", "frame": 0, "parallel": False},
+                 {"op": "superpose", "frame": 0, "parallel": True}])
+    # the rmsf-with-atom-indices path
+    for _ in range(4 if quick else 30):
+        n = rng.randint(6, 30)
+        gen = {"kind": "near_identical", "n": n, "m": n, "F": rng.randint(3, 6), "G": 1, "scale": 1.0, "offset": 3.0}
+        k = rng.randint(3, n)
+        add(gen, ops=[{"op": "rmsf", "frame": 0, "parallel": rng.random() < 0.5, "ref": "other", "atom_indices": sorted(sub_indices(rng, n, k))},
+                      {"op": "rmsf", "frame": 0, "parallel": True, "ref": "other", "atom_indices": list(range(n))}])
+    # buckets where the as-found choice of the adjugate column matters
+    for _ in range(6 if quick else 40):
+        n = rng.randint(4, 12)
+        add({"kind": "half_turn_axis", "n": n, "m": n, "F": 2, "G": 1, "lim": 6, "unit": 8},
+            ops=[{"op": "rmsd", "frame": 0, "parallel": True}, {"op": "superpose", "frame": 0, "parallel": True}])
+    for _ in range(6 if quick else 40):
+        n = rng.choice([5, 30, 200])
+        add({"kind": rng.choice(["half_turn_generic", "near_half_turn"]), "n": n, "m": n, "F": 2, "G": 1, "scale": 1.0},
+            ops=[{"op": "rmsd", "frame": 0, "parallel": True}, {"op": "superpose", "frame": 0, "parallel": True}])
+    for _ in range(8 if quick else 50):
+        n = rng.choice([3, 3, 3, 4, 5])
+        add({"kind": "tiny", "n": n, "m": n, "F": 2, "G": 1, "scale": rng.choice([0.4, 0.6, 1.0]), "offset": 1.0},
+            ops=[{"op": "rmsd", "frame": 0, "parallel": True}, {"op": "superpose", "frame": 0, "parallel": True}])
+    return cases
+
+
+# ------------------------------------------------------------------------------------------------
+#  exact side: integer coordinates, model evaluation in Coq
+def exact_centred_pairs(a32, b32):
+    """float32 conformations -> integer centred pairs in a common unit (exact): returns (pairs, unit)."""
+    fa = [[Fraction(float(v)) for v in row] for row in a32]
+    fb = [[Fraction(float(v)) for v in row] for row in b32]
+    k = len(fa)
+    den = 1
+    for row in fa + fb:
+        for v in row:
+            den = max(den, v.denominator)
+    ia = [[int(v * den) for v in row] for row in fa]
+    ib = [[int(v * den) for v in row] for row in fb]
+    sa = [sum(r[c] for r in ia) for c in range(3)]
+    sb = [sum(r[c] for r in ib) for c in range(3)]
+    xa = [[k * r[c] - sa[c] for c in range(3)] for r in ia]
+    xb = [[k * r[c] - sb[c] for c in range(3)] for r in ib]
+    unit = den * k
+    g = 0
+    for row in xa + xb:
+        for v in row:
+            g = math.gcd(g, abs(v))
+    g = math.gcd(g, unit) or 1
+    xa = [[v // g for v in r] for r in xa]
+    xb = [[v // g for v in r] for r in xb]
+    return list(zip(xa, xb)), unit // g
+
+
+def coq_pairs(pairs):
+    return clist(["((%s, %s, %s), (%s, %s, %s))" % tuple(cz(v) for v in (x + y)) for x, y in pairs])
+
+
+def horn_matrix(pairs):
+    """K for rotating the first conformation onto the second, textbook (Horn 1987) layout, exact integers."""
+    S = [[sum(x[a] * y[b] for x, y in pairs) for b in range(3)] for a in range(3)]
+    (Sxx, Sxy, Sxz), (Syx, Syy, Syz), (Szx, Szy, Szz) = S
+    return [[Sxx + Syy + Szz, Syz - Szy, Szx - Sxz, Sxy - Syx],
+            [Syz - Szy, Sxx - Syy - Szz, Sxy + Syx, Szx + Sxz],
+            [Szx - Sxz, Sxy + Syx, -Sxx + Syy - Szz, Syz + Szy],
+            [Sxy - Syx, Szx + Sxz, Syz + Szy, -Sxx - Syy + Szz]]
+
+
+def charpoly_exact(K):
+    """Faddeev-LeVerrier over the integers: det(tI - K) = t^4 + c3 t^3 + c2 t^2 + c1 t + c0."""
+    n = 4
+    I = [[1 if i == j else 0 for j in range(n)] for i in range(n)]
+    Mk = [[0] * n for _ in range(n)]
+    c = [1]
+    for k in range(1, n + 1):
+        # M_k = K M_{k-1} + c_{n-k+1} I
+        KM = [[sum(K[i][l] * Mk[l][j] for l in range(n)) for j in range(n)] for i in range(n)]
+        Mk = [[KM[i][j] + c[-1] * I[i][j] for j in range(n)] for i in range(n)]
+        KMk = [[sum(K[i][l] * Mk[l][j] for l in range(n)) for j in range(n)] for i in range(n)]
+        tr = sum(KMk[i][i] for i in range(n))
+        assert tr % k == 0
+        c.append(-tr // k)
+    return c  # [1, c3, c2, c1, c0]
+
+
+def top_root_check(coef, lam64):
+    """Is lam64 (float) the largest real root of the monic quartic with integer coefficients `coef`?
+    Exact rational evaluation: sign change on [lam-d, lam+d] and Budan-Fourier (all derivatives positive at
+    lam+d => no root above).  Returns 'ok' | 'excluded' | 'no'."""
+    c4, c3, c2, c1, c0 = [Fraction(v) for v in coef]
+    lam = Fraction(lam64)
+    scale = max(abs(lam), Fraction(1))
+    d = scale / 10 ** 9
+
+    def P(t): return (((c4 * t + c3) * t + c2) * t + c1) * t + c0
+    def P1(t): return ((4 * c4 * t + 3 * c3) * t + 2 * c2) * t + c1
+    def P2(t): return (12 * c4 * t + 6 * c3) * t + 2 * c2
+    def P3(t): return 24 * c4 * t + 6 * c3
+    hi, lo = lam + d, lam - d
+    above_free = P(hi) > 0 and P1(hi) > 0 and P2(hi) > 0 and P3(hi) > 0
+    if not above_free:
+        return "no"
+    if P(lo) < 0:
+        return "ok"
+    return "excluded"      # P >= 0 on both sides: (near-)double top root; not decided by this sub-check
+
+
+# ------------------------------------------------------------------------------------------------
+#  running and checking
+def run_impl_cases(ctx, cases):
+    inp = {}
+    arrays = []
+    for k, c in enumerate(cases):
+        t, r = gen_arrays(c["gen"])
+        arrays.append((t, r))
+        inp["c%d_target" % k] = t
+        inp["c%d_ref" % k] = r
+    tag = "%d_%d" % (len(cases), ctx.rng.randrange(10 ** 9))
+    ipath = os.path.join(ctx.tmp, "in_%s.npz" % tag)
+    opath = os.path.join(ctx.tmp, "out_%s.npz" % tag)
+    np.savez(ipath, **inp)
+    res = ctx.run_impl("rmsd_impl.py", {"inputs": ipath, "outputs": opath,
+                                        "cases": [{"id": k, "ops": c["ops"]} for k, c in enumerate(cases)]})
+    out = dict(np.load(opath))
+    return arrays, out, res.get("errors", {})
+
+
+def model_reports(ctx, items):
+    """items: list of (pairs, num, den, unit) -> list of ints from ZM.fallback_report (vm_compute in coqc)."""
+    if not items:
+        return []
+    res = []
+    for s in range(0, len(items), 40):
+        chunk = items[s:s + 40]
+        expr = "map ZM.fallback_report " + clist(["(%s, (%s, %s, %s))" % (coq_pairs(p), cz(num), cz(den), cz(unit))
+                                                 for p, num, den, unit in chunk])
+        rc, out = ctx.coq_eval(["MD.Rmsd.Model"], expr)
+        m = re.search(r"=\s*\[(.*?)\]\s*:\s*list Z", out, re.S)
+        if rc != 0 or not m:
+            raise RuntimeError("model evaluation failed: %s" % out[-1500:])
+        vals = [int(x) for x in re.findall(r"-?\d+", m.group(1))]
+        if len(vals) != len(chunk):
+            raise RuntimeError("model evaluation returned %d values for %d cases" % (len(vals), len(chunk)))
+        res += vals
+    return res
+
+
+def lam_fraction(pairs):
+    """largest eigenvalue of K (float64, on the exact integer inner products) as an exact fraction num/den."""
+    K = np.array(horn_matrix(pairs), dtype=np.float64)
+    w = np.linalg.eigvalsh(K)
+    f = Fraction(float(w[-1]))
+    return f.numerator, f.denominator, float(w[-1])
+
+
+def check_cases(ctx, cases, arrays, out, errors):
+    """All comparisons of one batch.  Returns the list of superposition failures awaiting classification."""
+    pending = []          # superpose failures + special buckets: classified with the Gallina model
+    notes = ctx.notes.setdefault("coverage_extra", {})
+    worst = notes.setdefault("max_error_in_units_of_bound", {})
+
+    excl = notes.setdefault("excluded_by_guard", {})
+
+    def track(name, ratio):
+        worst[name] = round(max(worst.get(name, 0.0), float(ratio)), 3)
+
+    for k, c in enumerate(cases):
+        target, ref = arrays[k]
+        gen = c["gen"]
+        F, n = target.shape[0], target.shape[1]
+        m = ref.shape[1]
+        for j, op in enumerate(c["ops"]):
+            key = "c%d_o%d" % (k, j)
+            rec = {"gen": gen, "ops": [op]}
+            bucket = "%s/%s" % (gen["kind"], op["op"])
+            if key in errors:
+                ctx.count(rec, bucket=bucket)
+                ctx.fail("%s raised on valid input: %s" % (op["op"], errors[key].split(":")[0]), rec, observed=errors[key],
+                         expected="a value", tags={"kind": "raises", "op": op["op"]})
+                continue
+            val = out[key]
+            A, B = op_indices(op, n, m)
+            fr = op.get("frame", 0)
+            if op["op"] in ("rmsd", "lprmsd"):
+                if op["op"] == "lprmsd":
+                    A = B = sorted(set(A))
+                for f in range(F):
+                    a, b = target[f][A], (target if op.get("ref") == "self" else ref)[fr][B]
+                    msd, R, ca, cb = kabsch(a, b)
+                    size2, rad, kappa = size_terms(a, b)
+                    off = float(max(np.abs(ca).max(), np.abs(cb).max()))
+                    if kappa < KAPPA_MIN:
+                        excl["degenerate_top_eigenvalue"] = excl.get("degenerate_top_eigenvalue", 0) + 1
+                        continue
+                    tol = C_MSD * EPS * size2 * (1 + 1 / kappa) + (4 * EPS * off) ** 2 + 8 * EPS * off * math.sqrt(msd)
+                    got = float(val[f]) ** 2
+                    ctx.count({"gen": gen, "op": op, "f": f}, nontrivial=msd > 0, bucket=bucket)
+                    track(op["op"], abs(got - msd) / tol)
+                    if not (abs(got - msd) <= tol) or not np.isfinite(got):
+                        ctx.fail("md.%s differs from the minimal RMSD over rotations and translations" % op["op"], rec,
+                                 observed={"frame": f, "rmsd": float(val[f])}, expected={"rmsd": math.sqrt(msd), "tol_msd": tol},
+                                 tags={"kind": "rmsd_value", "op": op["op"], "gen": gen["kind"]})
+                        break
+            elif op["op"] == "superpose":
+                for f in range(F):
+                    a, b = target[f][A], ref[fr][B]
+                    msd, R, ca, cb = kabsch(a, b)
+                    size2, rad, kappa = size_terms(a, b)
+                    x = target[f].astype(np.float64)
+                    y = val[f].astype(np.float64)
+                    radall = float(np.sqrt(((x - ca) ** 2).sum(1)).max())
+                    off = float(max(np.abs(ca).max(), np.abs(cb).max()))
+                    dev = math.sqrt(float(((y[A] - b.astype(np.float64)) ** 2).sum()) / len(A))
+                    tol = C_SUP * EPS * (radall + off) * (1 + 1 / max(kappa, KAPPA_MIN))
+                    ok_opt = abs(dev - math.sqrt(msd)) <= tol or kappa < KAPPA_MIN
+                    # rigidity: all distances to a few pivot atoms
+                    piv = [0, n // 2, n - 1]
+                    d0 = np.sqrt(((x[:, None, :] - x[None, piv, :]) ** 2).sum(-1))
+                    d1 = np.sqrt(((y[:, None, :] - y[None, piv, :]) ** 2).sum(-1))
+                    tol_r = C_RIG * EPS * (radall + off)
+                    ok_rig = float(np.abs(d0 - d1).max()) <= tol_r
+                    ident = x - ca + cb
+                    is_ident = float(np.abs(y - ident).max()) <= 8 * EPS * (radall + off) and math.sqrt(msd) + tol < dev
+                    ctx.count({"gen": gen, "op": op, "f": f}, nontrivial=True, bucket=bucket)
+                    if ok_opt:
+                        track("superpose_dev", abs(dev - math.sqrt(msd)) / tol)
+                    track("superpose_rigid", float(np.abs(d0 - d1).max()) / tol_r)
+                    if not ok_rig:
+                        ctx.fail("Trajectory.superpose changes interatomic distances", rec,
+                                 observed={"frame": f, "max_change": float(np.abs(d0 - d1).max())}, expected={"tol": tol_r},
+                                 tags={"kind": "superpose_not_rigid", "gen": gen["kind"]})
+                        break
+                    special = gen["kind"] in ("half_turn_axis", "half_turn_generic", "near_half_turn", "tiny")
+                    if (not ok_opt) or special:
+                        pending.append({"rec": rec, "f": f, "a": a, "b": b, "ok": ok_opt, "ident": is_ident,
+                                        "dev": dev, "opt": math.sqrt(msd), "tol": tol, "gen": gen["kind"]})
+                        if not ok_opt:
+                            break
+            elif op["op"] == "rmsf":
+                refarr = target if op.get("ref") == "self" else ref
+                X, Rs = [], []
+                kmin = 1.0
+                for f in range(F):
+                    a, b = target[f][A], refarr[fr][B]
+                    msd, R, ca, cb = kabsch(a, b)
+                    kmin = min(kmin, size_terms(a, b)[2])
+                    X.append((a.astype(np.float64) - ca) @ R)
+                    Rs.append(R)
+                X = np.array(X)
+                true = np.sqrt(((X - X.mean(0)) ** 2).sum(-1).mean(0))
+                rad = float(np.sqrt((X ** 2).sum(-1)).max())
+                off = float(max(np.abs(target[:, A].astype(np.float64).mean(1)).max(), 0.0))
+                if kmin < 1e-3:
+                    excl["rmsf_ill_conditioned_rotation"] = excl.get("rmsf_ill_conditioned_rotation", 0) + 1
+                    continue
+                tol = C_RMSF * EPS * (rad + off) * (1 + 1 / kmin)
+                err = float(np.abs(val - true).max())
+                ctx.count({"gen": gen, "op": op}, nontrivial=True, bucket=bucket + ("[atom_indices]" if op.get("atom_indices") is not None else ""))
+                if err <= tol:
+                    track("rmsf", err / tol)
+                else:
+                    explained = None
+                    if op.get("atom_indices") is not None and F > 1:
+                        cur = rmsf_cur_emulation(target, A, Rs)
+                        if not op.get("parallel", True):
+                            if cur is not None and float(np.abs(val - cur).max()) <= 1e-4 * (1.0 + float(np.abs(cur).max())):
+                                explained = "rmsf_cur_strided"
+                        else:
+                            explained = "rmsf_cur_strided_parallel"   # same code path under prange: racy, not reproducible
+                    ctx.fail("md.rmsf differs from the fluctuation about the mean of the optimally superposed frames"
+                             + (" (atom_indices given: rotation applied to a non-contiguous, uncentred copy)" if explained else ""), rec,
+                             observed={"max_abs_error": err, "rmsf_head": [float(v) for v in val[:4]]},
+                             expected={"rmsf_head": [float(v) for v in true[:4]], "tol": tol},
+                             tags={"kind": "rmsf_value", "explained_by": explained})
+    return pending
+
+
+def rmsf_cur_emulation(target, A, Rs):
+    """AS FOUND (_rmsd.pyx:rmsf with atom_indices): `np.array(target.xyz[:, atom_indices, :], copy=True)` has memory
+    order (atom, frame, xyz); rot_atom_major(&copy[i,0,0]) then rotates the 3*k floats that FOLLOW element [i,0,0]
+    in memory (atoms of other frames), frame after frame, and the copy was never centred.  Serial execution is
+    deterministic and is reproduced here; under prange the same writes race."""
+    F, k = target.shape[0], len(A)
+    y = np.array(target[:, A, :], copy=True)
+    flat = np.ascontiguousarray(y.transpose(1, 0, 2)).astype(np.float64).reshape(-1)
+    for i in range(F):
+        seg = flat[3 * i:3 * i + 3 * k]
+        if len(seg) < 3 * k:
+            return None
+        seg[:] = (seg.reshape(k, 3) @ Rs[i]).reshape(-1)
+    Y = flat.reshape(k, F, 3).transpose(1, 0, 2)
+    return np.sqrt(((Y - Y.mean(0)) ** 2).sum(-1).mean(0))
+
+
+def classify_pending(ctx, pending):
+    """Attribute superposition failures to the as-found choice of the adjugate column, using the Gallina model
+    (exact integers, vm_compute).  A failure the model does not explain is a violation."""
+    if not pending:
+        return
+    items = []
+    for p in pending:
+        pairs, unit = exact_centred_pairs(p["a"], p["b"])
+        num, den, _lam = lam_fraction(pairs)
+        items.append((pairs, num, den, unit))
+    reps = model_reports(ctx, items)
+    stats = ctx.notes.setdefault("coverage_extra", {}).setdefault("adjugate_column_buckets", {})
+    follows_cur = True     # every sure prediction "identity" of the as-found variant is observed
+    sure = []
+    for p, r in zip(pending, reps):
+        cur_fb, fix_fb, guard, illc = bool(r & 8), bool(r & 4), bool(r & 2), bool(r & 1)
+        p.update(cur_fb=cur_fb, fix_fb=fix_fb, guard=guard, illc=illc)
+        if cur_fb and not guard and not fix_fb:
+            sure.append(p)
+            if not p["ident"]:
+                follows_cur = False
+    for p in pending:
+        key = "%s:%s" % (p["gen"], "ok" if p["ok"] else ("identity" if p["ident"] else "wrong"))
+        stats[key] = stats.get(key, 0) + 1
+        if p["ok"]:
+            continue
+        if p["fix_fb"]:
+            stats["excluded_degenerate"] = stats.get("excluded_degenerate", 0) + 1
+            continue      # K - lam I has rank <= 2 (e.g. collinear atoms): outside the quantifier of the property
+        cause = None
+        if p["illc"]:
+            cause = "first_column_vanishes"
+        elif p["cur_fb"] and p["ident"]:
+            cause = "absolute_threshold"
+        explained = cause is not None and (follows_cur or cause == "first_column_vanishes")
+        ctx.fail("Trajectory.superpose does not attain the minimal RMSD"
+                 + (" (adjugate column choice: %s)" % cause if explained else ""), p["rec"],
+                 observed={"frame": p["f"], "deviation_after_superpose": p["dev"], "identity_rotation": p["ident"]},
+                 expected={"minimal_rmsd": p["opt"], "tol": p["tol"],
+                           "model": {"cur_falls_back": p["cur_fb"], "cur_ill_conditioned": p["illc"], "guard": p["guard"]}},
+                 tags={"kind": "superpose_not_optimal", "gen": p["gen"],
+                       "explained_by": ("rot_cur" if explained else None), "cause": cause if explained else None})
+    stats["sure_identity_predictions"] = len(sure)
+    stats["implementation_follows"] = "rot_cur" if (sure and follows_cur) else ("rot_fix" if all(p["ok"] for p in pending) else "neither/undetermined")
+
+
+def exact_tie(ctx, cases, arrays, out):
+    """Integer-grid cases: Gallina coefficients == independent exact characteristic polynomial; the
+    implementation's rmsd must be the largest root of that polynomial."""
+    coqcases, meta = [], []
+    for k, c in enumerate(cases):
+        if c["gen"]["kind"] not in ("grid", "half_turn_axis"):
+            continue
+        target, ref = arrays[k]
+        unit = c["gen"]["unit"]
+        for f in range(target.shape[0]):
+            xa = [[int(round(float(v) * unit)) for v in row] for row in target[f]]
+            xb = [[int(round(float(v) * unit)) for v in row] for row in ref[0]]
+            pairs = list(zip(xa, xb))
+            coef = charpoly_exact(horn_matrix(pairs))
+            ga = sum(v * v for x, _ in pairs for v in x)
+            gb = sum(v * v for _, y in pairs for v in y)
+            assert coef[1] == 0
+            coqcases.append((coq_pairs(pairs), "(%s, %s, %s, %s, %s)" % (cz(coef[2]), cz(coef[3]), cz(coef[4]), cz(ga), cz(gb))))
+            meta.append((k, f, pairs, coef, ga, gb, unit))
+    if not coqcases:
+        return
+    bad, errs = ctx.coq_mismatches(["MD.Rmsd.Model"], ("list ZM.apair", "Z * Z * Z * Z * Z"), "ZM.coeffs_eqb", "ZM.coeffs", coqcases)
+    if errs:
+        ctx.break_("correspondence:coqc-evaluation", "\n".join(errs))
+        return
+    for i in bad:
+        k, f, pairs, coef, ga, gb, unit = meta[i]
+        ctx.break_("correspondence:charpoly-model-vs-exact",
+                   "Gallina coefficients (from the source text) differ from det(tI-K) computed exactly: case %s frame %d" % (cases[k]["gen"], f))
+    excluded = 0
+    for i, (k, f, pairs, coef, ga, gb, unit) in enumerate(meta):
+        if i in bad:
+            continue
+        num, den, lam = lam_fraction(pairs)
+        verdict = top_root_check(coef, lam)
+        if verdict == "no":
+            ctx.break_("oracle:eigvalsh-not-top-root", "float64 eigenvalue is not the largest root of the exact polynomial: %s" % (cases[k]["gen"],))
+            continue
+        if verdict == "excluded":
+            excluded += 1
+            continue
+        n = len(pairs)
+        msd_exact = float(Fraction(ga + gb) - 2 * Fraction(num, den)) / (n * unit * unit)
+        msd_exact = max(msd_exact, 0.0)
+        size2 = (ga + gb) / float(n * unit * unit)
+        for j, op in enumerate(cases[k]["ops"]):
+            if op["op"] != "rmsd":
+                continue
+            got = float(out["c%d_o%d" % (k, j)][f]) ** 2
+            w = np.linalg.eigvalsh(np.array(horn_matrix(pairs), dtype=np.float64))
+            kappa = float(np.prod((w[-1] - w[:-1]) / ((ga + gb) / 2.0)))
+            if kappa < KAPPA_MIN:
+                excluded += 1
+                continue
+            tol = C_MSD * EPS * size2 * (1 + 1 / kappa)
+            ctx.count({"gen": cases[k]["gen"], "op": op, "f": f, "exact": True}, nontrivial=True, bucket="exact_top_root")
+            if abs(got - msd_exact) > tol:
+                ctx.fail("md.rmsd is not the largest root of the characteristic polynomial of K (exact evaluation)",
+                         {"gen": cases[k]["gen"], "ops": [op]}, observed={"frame": f, "rmsd": math.sqrt(got)},
+                         expected={"rmsd": math.sqrt(msd_exact), "C2,C1,C0": [str(v) for v in coef[2:]]},
+                         tags={"kind": "rmsd_not_top_root", "gen": cases[k]["gen"]["kind"]})
+    ctx.notes.setdefault("coverage_extra", {})["exact_top_root_excluded_degenerate"] = excluded
+
+
+def oracle_selfcheck(ctx, cases, arrays):
+    """The Kabsch oracle itself: random rotations (global and small perturbations of the optimum) never give a
+    lower residual than the value it reports."""
+    rs = np.random.RandomState(ctx.rng.randrange(2 ** 31 - 1))
+    probes = 0
+    for k, c in enumerate(cases[:: max(1, len(cases) // 40)]):
+        target, ref = arrays[cases.index(c)]
+        n = min(target.shape[1], ref.shape[1])
+        a, b = target[0][:n], ref[0][:n]
+        msd, R, ca, cb = kabsch(a, b)
+        A, B = a.astype(np.float64) - ca, b.astype(np.float64) - cb
+        for t in range(40 if ctx.tier == "quick" else 200):
+            if t % 2:
+                Rp = R @ rotmat(rs.randn(3), 10.0 ** -rs.uniform(1, 4))
+            else:
+                Rp = rotmat(rs.randn(3), rs.uniform(0, math.pi))
+            val = float(((A @ Rp - B) ** 2).sum()) / n
+            probes += 1
+            if val < msd - 1e-9 * max(1.0, msd):
+                ctx.break_("oracle:kabsch-not-minimal", "a probe rotation gives a lower residual than the SVD oracle: %s" % (c["gen"],))
+                return
+    ctx.notes.setdefault("coverage_extra", {})["oracle_optimality_probes"] = probes
+
+
+def run_cases(ctx, cases, batch=60):
+    for s in range(0, len(cases), batch):
+        chunk = cases[s:s + batch]
+        arrays, out, errors = run_impl_cases(ctx, chunk)
+        pending = check_cases(ctx, chunk, arrays, out, errors)
+        classify_pending(ctx, pending)
+        exact_tie(ctx, chunk, arrays, out)
+        if s == 0:
+            oracle_selfcheck(ctx, chunk, arrays)
+
+
+def correspond(ctx):
+    cases = build_cases(ctx)
+    ctx.log("cases:", len(cases), "ops:", sum(len(c["ops"]) for c in cases))
+    run_cases(ctx, cases)
+    ctx.notes.setdefault("coverage_extra", {})["bounds"] = {
+        "C_MSD": C_MSD, "factor": "(1+1/kappa)", "C_SUP": C_SUP, "C_RIG": C_RIG, "C_RMSF": C_RMSF, "unit": "2^-23"}
+
+
+def search(ctx, broken):
+    # the correspondence already runs the property oracle (minimal RMSD by an independent method) on the
+    # implementation; after a broken proof/tie run a second, larger stream of the generic buckets
+    extra = []
+    rng = ctx.rng
+    for _ in range(3):
+        for kind in GENERIC_KINDS:
+            for n in SMALL_SIZES:
+                gen = {"kind": kind, "n": n, "m": n, "F": 2, "G": 1, "scale": 1.0, "seed": rng.randrange(1, 2 ** 31 - 1)}
+                if kind == "offset":
+                    gen["offset"] = 50.0
+                extra.append({"gen": gen, "ops": gen_ops(rng, gen, True)})
+    run_cases(ctx, extra)
+
+
+def replay(ctx, rec):
+    run_cases(ctx, [rec["case"]])
